@@ -18,7 +18,9 @@ RULE = (
     "(a) every token sequence of length <= N over a 57-token alphabet (every keyword class, punctuator and literal kind, "
     "'#', '@', a #pragma line, a linemarker) after each of 8 context prefixes; (b) Hypothesis-generated token-level "
     "mutations (delete/insert/replace/swap/duplicate/truncate, 1-4 edits) of corpus programs, corner-catalogue programs and "
-    "generated programs; (c) raw character noise. Oracle: FileAST, or ParseError whose message starts with "
+    "generated programs; (c) raw character noise; (d) construct splicing: whole constructs (token ranges of declarations, "
+    "statements, expressions, declarators, type names recorded by the model renderer) of one generated program inserted into or "
+    "substituted for constructs of another. Oracle: FileAST, or ParseError whose message starts with "
     "'<file>:line:col: ' / '<file>:line: ' / '<file>: ' for a file name in play; RecursionError tolerated only for inputs "
     "of more than 100 tokens; CPU-time alarm = non-termination. Non-trivial: the parser requested at least two tokens "
     "beyond the context prefix before deciding (counted by a lexer subclass injected through lexer=); distinct by "
@@ -204,6 +206,49 @@ def _line_files(src):
     return tuple(m.group(1).lstrip('"').rstrip('"') for m in re.finditer(r'#[ \t]*(?:line)?[ \t]*\d+[ \t]*("(?:[^"\\\n]|\\.)*")', src))
 
 
+def splice_shard(arg):
+    """Construct splicing: whole constructs (declarations, statements,
+    expressions, declarators, type names - token ranges recorded by the model
+    renderer) of one generated program are inserted into / substituted for
+    constructs of another at token boundaries.  Yields near-valid inputs that
+    reach error paths deep inside productions."""
+    from .. import cmodel as M
+    from .. import gen
+
+    seed, n = arg
+    st = Stats()
+
+    def render(c):
+        g = gen.G(c, quarantine=(), max_nodes=60)
+        tu = M.freshen(gen.gen_unit(g, c.int(1, 2)))
+        r = M.Renderer("min")
+        r.unit(tu)
+        toks = [("\n" + t.s + "\n") if t.line else t.s for t in r.toks]
+        ranges = sorted({rg for rg in r.ranges.values() if rg[1] > rg[0]})
+        return toks, ranges
+
+    def body(c):
+        a, ra = render(c)
+        b, rb = render(c)
+        for _ in range(c.int(1, 2)):
+            if not rb or not a:
+                break
+            lo, hi = c.choice(rb)
+            frag = b[lo:hi]
+            if c.chance(0.5) and ra:
+                x, y = c.choice(ra)  # substitute a construct of a
+                a = a[:x] + frag + a[y:]
+            else:
+                i = c.int(0, len(a))
+                a = a[:i] + frag + a[i:]
+            ra = [rg for rg in ra if rg[1] <= len(a)]
+        src = gen.PRELUDE + " " + " ".join(a)
+        _oracle_text(src, len(a) + 9, "f.c", st, "splice")
+
+    hyp_search(body, seed, n, st)
+    return st
+
+
 NOISE = list(" \t\n") + [chr(i) for i in range(33, 127)] + ["\x00", "\x7f", "\xe9", "€", "\r", "\x0c"]
 
 
@@ -241,6 +286,7 @@ def run(ctx):
     bases()  # build before forking
     nmut = ctx.pick(2500, 40000)
     ctx.map(mutant_shard, [(s, nmut) for s in ctx.shard_seeds(16, 1)])
+    ctx.map(splice_shard, [(s, ctx.pick(1500, 40000)) for s in ctx.shard_seeds(16, 4)])
     nnoise = ctx.pick(1500, 25000)
     ctx.map(noise_shard, [(s, nnoise) for s in ctx.shard_seeds(16, 2)])
     ctx.exhaustive = True
